@@ -224,9 +224,164 @@ pub fn observe_splits<T: Label>(w: &Window<T>, m: &VecDeque<u32>, st: &mut Stats
 				}
 				ensure!(it.next().is_none() && it.next().is_none(), "C01:iter_rev-fused", "iter_rev yields after exhaustion (cap {})", n);
 			}
+			if dir == 0 {
+				observe_adaptors(&|| w.iter(), exp, k, dname, st)?;
+				observe_adaptors(&|| w.into_iter(), exp, k, "into_iter", st)?;
+			} else {
+				observe_adaptors(&|| w.iter_rev(), exp, k, dname, st)?;
+			}
 		}
 		st.count("split_observations", 1);
 	}
+	Ok(())
+}
+
+/// Everything `Iterator` provides on top of `next` (nth, skip, step_by, take, fold, find, position, ...) must
+/// answer as the same adaptor over the expected sequence does: an override of any of them is code under test.
+/// `mk` builds a fresh iterator; it is advanced by `k` plain `next()` calls first.
+fn observe_adaptors<'a, T: Label, I: ExactSizeIterator<Item = &'a T>>(
+	mk: &dyn Fn() -> I,
+	exp: &[u32],
+	k: usize,
+	dname: &str,
+	st: &mut Stats,
+) -> CaseResult {
+	let n = exp.len();
+	let rem = n.saturating_sub(k);
+	let tail: &[u32] = if k < n { &exp[k..] } else { &[] };
+	let adv = || {
+		let mut it = mk();
+		for _ in 0..k {
+			it.next();
+		}
+		it
+	};
+	let js = [
+		0usize,
+		1,
+		2,
+		rem.saturating_sub(1),
+		rem,
+		rem + 1,
+		rem / 2,
+		254,
+		255,
+		256,
+		257,
+		256 + rem / 2,
+		256 + rem.saturating_sub(1),
+		256 + rem,
+		511,
+		512,
+		513,
+		512 + rem.saturating_sub(1),
+		65535,
+		65536,
+		65537,
+		65536 + rem.saturating_sub(1),
+		1 << 32,
+		(1 << 32) + 1,
+		(1 << 32) + rem.saturating_sub(1),
+		usize::MAX - 1,
+		usize::MAX,
+	];
+	for &j in &js {
+		let mut it = adv();
+		let got = it.nth(j).map(Label::id);
+		let e = tail.get(j).copied();
+		ensure!(got == e, &format!("C01:{dname}-nth"), "{} after {} of {}: nth({}) = {:?} expected {:?}", dname, k, n, j, got, e);
+		let left = it.len();
+		let rest: Vec<u32> = it.map(Label::id).collect();
+		let exp_rest: &[u32] = if j < rem { &tail[j + 1..] } else { &[] };
+		ensure!(
+			rest == exp_rest && left == exp_rest.len(),
+			&format!("C01:{dname}-nth-remainder"),
+			"{} after {} of {}: after nth({}) len() = {} and the remainder is {:?}, expected {:?}",
+			dname,
+			k,
+			n,
+			j,
+			left,
+			rest,
+			exp_rest
+		);
+		let got: Vec<u32> = adv().skip(j).map(Label::id).collect();
+		let e: Vec<u32> = tail.iter().copied().skip(j).collect();
+		ensure!(got == e, &format!("C01:{dname}-skip"), "{} after {} of {}: skip({}) yields {:?} expected {:?}", dname, k, n, j, got, e);
+		let got: Vec<u32> = adv().take(j).map(Label::id).collect();
+		let e: Vec<u32> = tail.iter().copied().take(j).collect();
+		ensure!(got == e, &format!("C01:{dname}-take"), "{} after {} of {}: take({}) yields {:?} expected {:?}", dname, k, n, j, got, e);
+		if j > 0 {
+			let got: Vec<u32> = adv().step_by(j).map(Label::id).collect();
+			let e: Vec<u32> = tail.iter().copied().step_by(j).collect();
+			ensure!(got == e, &format!("C01:{dname}-step_by"), "{} after {} of {}: step_by({}) yields {:?} expected {:?}", dname, k, n, j, got, e);
+		}
+		st.count("adaptor_observations", 4);
+	}
+	// internal iteration: fold / for_each / try_fold based consumers
+	let h = |acc: u64, x: u32| acc.wrapping_mul(0x100000001b3).wrapping_add(u64::from(x) + 1);
+	let got = adv().fold(7u64, |a, x| h(a, x.id()));
+	let e = tail.iter().fold(7u64, |a, &x| h(a, x));
+	ensure!(got == e, &format!("C01:{dname}-fold"), "{} after {} of {}: fold visits a different sequence than {:?}", dname, k, n, tail);
+	let mut seen = Vec::with_capacity(rem);
+	adv().for_each(|x| seen.push(x.id()));
+	ensure!(seen == tail, &format!("C01:{dname}-for_each"), "{} after {} of {}: for_each visits {:?} expected {:?}", dname, k, n, seen, tail);
+	let probes = [tail.first().copied(), tail.get(rem / 2).copied(), tail.last().copied(), Some(u32::MAX)];
+	for p in probes.iter().flatten() {
+		let got = adv().position(|x| x.id() == *p);
+		let e = tail.iter().position(|x| x == p);
+		ensure!(got == e, &format!("C01:{dname}-position"), "{} after {} of {}: position of {} = {:?} expected {:?}", dname, k, n, p, got, e);
+		let mut it = adv();
+		let got = it.find(|x| x.id() == *p).map(Label::id);
+		let e = tail.iter().copied().find(|x| x == p);
+		let rest: Vec<u32> = it.map(Label::id).collect();
+		let exp_rest: Vec<u32> = tail.iter().copied().skip_while(|x| x != p).skip(1).collect();
+		ensure!(
+			got == e && rest == exp_rest,
+			&format!("C01:{dname}-find"),
+			"{} after {} of {}: find({}) = {:?} then {:?}, expected {:?} then {:?}",
+			dname,
+			k,
+			n,
+			p,
+			got,
+			rest,
+			e,
+			exp_rest
+		);
+		ensure!(
+			adv().any(|x| x.id() == *p) == tail.contains(p) && adv().all(|x| x.id() != *p) != tail.contains(p),
+			&format!("C01:{dname}-any-all"),
+			"{} after {} of {}: any/all disagree about {} in {:?}",
+			dname,
+			k,
+			n,
+			p,
+			tail
+		);
+	}
+	let got = (adv().map(Label::id).min(), adv().map(Label::id).max(), adv().min_by_key(|x| x.id()).map(Label::id), adv().max_by_key(|x| x.id()).map(Label::id));
+	let e = (tail.iter().copied().min(), tail.iter().copied().max(), tail.iter().copied().min(), tail.iter().copied().max());
+	ensure!(got == e, &format!("C01:{dname}-min-max"), "{} after {} of {}: min/max {:?} expected {:?}", dname, k, n, got, e);
+	let got: Vec<(usize, u32)> = adv().enumerate().map(|(i, x)| (i, x.id())).collect();
+	ensure!(
+		got.iter().enumerate().all(|(i, &(gi, gx))| gi == i && tail.get(i) == Some(&gx)) && got.len() == rem,
+		&format!("C01:{dname}-enumerate"),
+		"{} after {} of {}: enumerate yields {:?} over {:?}",
+		dname,
+		k,
+		n,
+		got,
+		tail
+	);
+	let got: Vec<u32> = adv().zip(adv().skip(1)).map(|(a, b)| a.id() ^ b.id().rotate_left(16)).collect();
+	let e: Vec<u32> = tail.iter().zip(tail.iter().skip(1)).map(|(a, b)| a ^ b.rotate_left(16)).collect();
+	ensure!(got == e, &format!("C01:{dname}-zip"), "{} after {} of {}: zip with its own skip(1) differs", dname, k, n);
+	let mut pk = adv().peekable();
+	let first = pk.peek().map(|x| x.id());
+	let all: Vec<u32> = pk.map(Label::id).collect();
+	ensure!(first == tail.first().copied() && all == tail, &format!("C01:{dname}-peekable"), "{} after {} of {}: peekable yields {:?} expected {:?}", dname, k, n, all, tail);
+	st.count("adaptor_observations", 12);
 	Ok(())
 }
 
@@ -527,6 +682,24 @@ pub fn trace_history<T: Label>(c: &HCase) -> (u64, u64) {
 				}
 				add(it.len() as u64);
 				add(it.count() as u64);
+				// positional and internal-iteration adaptors (an override of any of them is code under test as well)
+				for j in [0usize, 1, n / 2, n.saturating_sub(1), n, 255, 256, 257, 256 + n / 2, 65536, usize::MAX] {
+					let mut it = w.iter();
+					for _ in 0..k.min(3) {
+						it.next();
+					}
+					add(it.nth(j).map_or(u64::MAX, |x| x.id() as u64));
+					add(it.len() as u64);
+					let mut it = w.iter_rev();
+					add(it.nth(j).map_or(u64::MAX, |x| x.id() as u64));
+					add(it.len() as u64);
+					add(w.iter().skip(j).fold(3u64, |a, x| engine::mix(a, x.id() as u64)));
+					add(w.iter_rev().skip(j).fold(5u64, |a, x| engine::mix(a, x.id() as u64)));
+					if j > 0 {
+						add(w.iter().step_by(j).fold(7u64, |a, x| engine::mix(a, x.id() as u64)));
+						add(w.iter_rev().step_by(j).fold(9u64, |a, x| engine::mix(a, x.id() as u64)));
+					}
+				}
 			}
 			Op::CloneSwap => {
 				let c2 = w.clone();
